@@ -104,7 +104,7 @@ pub fn check_tx(doc: &str, model: &TxModel, key: &[u8; 32], cls: &mut Classifier
         }
     }
     let want_digest = model.digest();
-    let parsed = catch(|| serde_json::from_str::<Transaction>(doc).map_err(|e| e.to_string()));
+    let parsed = crate::isolate::inflight("transaction", doc.as_bytes(), "generated", || catch(|| serde_json::from_str::<Transaction>(doc).map_err(|e| e.to_string())));
     let tx = match parsed {
         Ok(Ok(t)) => t,
         Ok(Err(e)) => return Err(mk("accepted".into(), format!("Err({e})"), format!("well-formed transaction refused: {docs}"))),
